@@ -124,9 +124,9 @@ def body(script, client_retry, cfg_present, cfg_retry):
     exp = M.run(script, mr, npend, int(max(1.0, sil) / wait))
     (kind, val), tr, elapsed, request = run_client(script, client_retry, cfg_present, cfg_retry)
     # transmissions
-    check(1 <= tr.writes <= mr + 1, "request transmitted " + str(tr.writes) + " times with max_retry " + str(mr))
-    check(tr.writes == exp.writes, "transmissions: " + str(tr.writes) + " expected " + str(exp.writes))
-    check(tr.reconnects == exp.reconnects, "reconnects: " + str(tr.reconnects) + " expected " + str(exp.reconnects))
+    check(1 <= tr.writes <= mr + 1, lambda: "request transmitted " + str(tr.writes) + " times with max_retry " + str(mr))
+    check(tr.writes == exp.writes, lambda: "transmissions: " + str(tr.writes) + " expected " + str(exp.writes))
+    check(tr.reconnects == exp.reconnects, lambda: "reconnects: " + str(tr.reconnects) + " expected " + str(exp.reconnects))
     # outcome
     if exp.outcome.startswith("reply:"):
         idx = int(exp.outcome[6:])
@@ -145,7 +145,7 @@ def body(script, client_retry, cfg_present, cfg_retry):
         check(kind == exp.outcome, "expected " + exp.outcome + ", got " + kind)
     # bounded time: sum of back-offs (0.2 * 2**i) + one timeout per silent transport call
     bound = sum(0.2 * 2**i for i in range(mr + 1)) + 1.0 * tr.writes + wait * tr.reads
-    check(elapsed <= bound + 1e-9, "request took " + str(elapsed) + " s of loop time, bound " + str(bound))
+    check(elapsed <= bound + 1e-9, lambda: "request took " + str(elapsed) + " s of loop time, bound " + str(bound))
     return done()
 
 
@@ -171,10 +171,10 @@ def long_pending_final(n, final, mr, informational=False):
         check(kind in ("reply", "stuck"), "unexpected outcome " + kind)
         check(tr.writes == 1, "retransmission around the pending limit")
         return done()
-    check(kind == "reply", "final reply after " + str(n) + " pendings was dropped: " + kind)
+    check(kind == "reply", lambda: "final reply after " + str(n) + " pendings was dropped: " + kind)
     check(val.pdu == REPLY[final], "wrong reply bytes")
     check(tr.writes == 1, "responsePending caused a retransmission")
-    check(tr.reads == n, "reads " + str(tr.reads))
+    check(tr.reads == n, lambda: "reads " + str(tr.reads))
     return done()
 
 
@@ -193,7 +193,7 @@ def pending_silence(mr, timeout):
     check(kind == "missing", "pending then silence ended as " + kind)
     check(tr.writes <= mr + 1, "too many transmissions")
     per_attempt = elapsed / tr.writes
-    check(per_attempt <= max(timeout, 20) + 60, "silence after pending kept the request alive for " + str(per_attempt) + " s per attempt")
+    check(per_attempt <= max(timeout, 20) + 60, lambda: "silence after pending kept the request alive for " + str(per_attempt) + " s per attempt")
     return done()
 
 
@@ -219,7 +219,7 @@ def alternating(k, g, final, mr):
     """(e) isolated poll timeouts between pendings (each gap far below the silence limit) never add up:
     the final reply is returned after one transmission."""
     (kind, val), tr, elapsed, request = run_client(AlternatingScript(k, g, final), mr, False, 0)
-    check(kind == "reply", "final reply after " + str(k) + " slow pendings was dropped: " + kind)
+    check(kind == "reply", lambda: "final reply after " + str(k) + " slow pendings was dropped: " + kind)
     check(val.pdu == REPLY[final], "wrong reply bytes")
     check(tr.writes == 1, "responsePending caused a retransmission")
     return done()
